@@ -122,3 +122,54 @@ def strip_docstring(body: list[ast.stmt]) -> list[ast.stmt]:
     if body and isinstance(body[0], ast.Expr) and isinstance(body[0].value, ast.Constant) and isinstance(body[0].value.value, str):
         return body[1:]
     return body
+
+
+class ClsRef:
+    """a name that is not a constant of the class body (a value class, a function): kept by name"""
+    def __init__(self, name):
+        self.id = name
+
+    def __repr__(self):
+        return f"<{self.id}>"
+
+    def __eq__(self, o):
+        return isinstance(o, ClsRef) and o.id == self.id
+
+    def __hash__(self):
+        return hash(("ClsRef", self.id))
+
+
+_CONST_NODES = (ast.Constant, ast.Tuple, ast.List, ast.Set, ast.Dict, ast.Name, ast.Load, ast.Store, ast.Call, ast.GeneratorExp, ast.ListComp,
+                ast.DictComp, ast.SetComp, ast.comprehension, ast.Subscript, ast.Starred, ast.BinOp, ast.Add, ast.keyword, ast.Compare,
+                ast.In, ast.NotIn, ast.Eq, ast.NotEq, ast.IfExp, ast.BoolOp, ast.And, ast.Or, ast.UnaryOp, ast.Not, ast.USub, ast.Slice)
+
+
+def class_constants(module: "Module", cls: str) -> dict:
+    """The values of the class-level constant tables of a class, computed from the REAL class body in statement order.
+    Only expressions built from literals, tuples / lists / dicts, comprehensions, + and the constructors tuple / list / dict /
+    frozenset / set / sorted / enumerate / zip / len / CaselessDict (a dict keyed by the upper-cased name) are evaluated; a name that
+    is not an earlier constant of the body stands for itself (ClsRef).  Anything else is left out (the caller reports undecided)."""
+    def caseless(*a, **k):
+        d = dict(*a, **k)
+        return {(key.upper() if isinstance(key, str) else key): v for key, v in d.items()}
+    allowed = {"tuple": tuple, "list": list, "dict": dict, "frozenset": frozenset, "set": set, "sorted": sorted, "enumerate": enumerate,
+               "zip": zip, "len": len, "CaselessDict": caseless, "range": range, "str": str}
+    env: dict = {}
+    for n in module.classes[cls].body:
+        if not (isinstance(n, ast.Assign) and len(n.targets) == 1 and isinstance(n.targets[0], ast.Name)):
+            continue
+        if not all(isinstance(x, _CONST_NODES) for x in ast.walk(n.value)):
+            continue
+        bound = {t.id for c in ast.walk(n.value) if isinstance(c, ast.comprehension) for t in ast.walk(c.target) if isinstance(t, ast.Name)}
+        scope = dict(allowed)
+        scope.update(env)
+        for x in ast.walk(n.value):
+            if isinstance(x, ast.Name) and x.id not in scope and x.id not in bound:
+                scope[x.id] = ClsRef(x.id)
+        if any(isinstance(x, ast.Call) and not (isinstance(x.func, ast.Name) and x.func.id in allowed) for x in ast.walk(n.value)):
+            continue
+        try:
+            env[n.targets[0].id] = eval(compile(ast.Expression(n.value), "<class constant>", "eval"), {"__builtins__": {}}, scope)  # noqa: S307
+        except Exception:  # noqa
+            continue
+    return env
